@@ -202,7 +202,8 @@ def locate(res: dict) -> list[dict]:
                 if s in (elt_sl, parent_line) or (t is not None and s <= elt_sl <= t and s >= parent_line):
                     at_elt = 1
         at_url = 1 if (filename and filename.lower() in msg) or url.lower() in msg else 0
-        names = 1 if any(w in msg for w in words) else 0
+        # a word names the box / attribute only as a whole token: '@d' is not found in 'SegmentTemplate@duration'
+        names = 1 if any(re.search(r'(?<![a-z0-9_])' + re.escape(w) + r'(?![a-z0-9_])', msg) for w in words) else 0
         out.append({'at_elt': at_elt, 'at_url': at_url, 'names': names})
     return out
 
